@@ -205,7 +205,8 @@ def check(ctx):
         run("".join(rng.choice(alphabet) for _ in range(rng.randrange(0, 14))), "chars")
     for text in ["", " ", ";", ";;", "1;", ";1", "%", "(", ")", "1 +", "x =", "=", "1e", "1e-", "0x", "0b2", "#", "\"", "{", "[1,", "f(", "f(1,", "1..", "..1",
                  "1 to", "to m", "1 m to", "1 m |", "1 m^", "1 m^x", "1 m^1.5", "instant", "1.5e400", "2^20000", "10^5000/3", "1/(10^400) + 0.5",
-                 "sample(Geometric(1))", "max(5)", "max()", "range(1,2,0)", "ceil(#2020-01-31#)", "#2020-01-01# + 1 ms", "log(8,-2)", "ln(1/10^400)",
+                 "sample(Geometric(1))", "max(5)", "max()", "range(1,2,0)", "range(1e16, 1e16+4, 0.5)", "range(10^16, 10^16+4, 0.5)", "range(1.0e16, 1.0e16+2, 0.25)",
+                 "range(2^53, 2^53+8, 0.5)", "range(1e300, 1e300*2, 1)", "range(0.1, 0.2, 1e-18)", "size(range(2251799813685248.5, 2251799813685268.5, 0.7))", "ceil(#2020-01-31#)", "#2020-01-01# + 1 ms", "log(8,-2)", "ln(1/10^400)",
                  "sin(1/1.5e-200/1.5e-200)", "x = 1/1.5e-200/1.5e-200; int(x - x)", "x = pi*1e308; x - x", "x = 2.5*1e308; x*0",
                  "#2020-01-01# + (1/1.5e-200/1.5e-200) s", "floor(pi*1e308)", "{2.5*1e308}", "1e308 miles", "[1, 1e308]*2.5",
                  "  \"ab\" ?", "  \"abcdef\" \"ghi\"", "      \"abcdef\" + 0b12", "  #2020-01-01# ?", "   f(\"abc\", \"de\", ?)", "\t \"x y\" @", "   1 + ?",
